@@ -175,12 +175,14 @@ def Pre.advance (p : Pre) (o : Obs) : Option Pre :=
     | none => none
 
 /-- The Spec over a whole history: every read meets `specOk` in the pre-state reached by the earlier calls
-    (subscription changes between reads included).  A hung call (`blocked`) ends the history. -/
-def histOk (cfg : Cfg) : Pre → List Call → List Obs → Bool
-  | _, [], _ => true
-  | p, .setSub sub :: cs, os => histOk cfg { p with sub := sub } cs os
-  | _, .read _ _ _ :: _, [] => false
-  | p, .read tmo ack sync :: cs, o :: os =>
+    (subscription changes between reads included), judged against the local definition table *as it is at the time
+    of that read* (changes of the table between reads included).  A hung call (`blocked`) ends the history. -/
+def histOk : Cfg → Pre → List Call → List Obs → Bool
+  | _, _, [], _ => true
+  | cfg, p, .setSub sub :: cs, os => histOk cfg { p with sub := sub } cs os
+  | cfg, p, .setDefs defs :: cs, os => histOk { cfg with defs := defs } p cs os
+  | _, _, .read _ _ _ :: _, [] => false
+  | cfg, p, .read tmo ack sync :: cs, o :: os =>
     specOk cfg p ⟨tmo, ack, sync⟩ o &&
       (o.res == .blocked ||
         match p.advance o with
